@@ -1,6 +1,73 @@
+mod c18;
+mod c19;
+
+use mc_core::Value;
+use std::collections::BTreeMap;
+
+/// Violations gathered inside a parallel loop. Per fingerprint the witness
+/// with the smallest enumeration key is kept (so the reported case does not
+/// depend on thread scheduling) together with the number of witnesses; the
+/// text and the replay case are only built for a new minimum.
+#[derive(Default)]
+pub struct Viols(BTreeMap<String, (u64, String, Value, u64)>);
+
+impl Viols {
+    pub fn add(&mut self, key: u64, fp: String, make: impl FnOnce() -> (String, Value)) {
+        match self.0.get_mut(&fp) {
+            Some(e) => {
+                e.3 += 1;
+                if key < e.0 {
+                    let (w, c) = make();
+                    e.0 = key;
+                    e.1 = w;
+                    e.2 = c;
+                }
+            }
+            None => {
+                let (w, c) = make();
+                self.0.insert(fp, (key, w, c, 1));
+            }
+        }
+    }
+    pub fn add_eager(&mut self, key: u64, fp: impl Into<String>, what: impl Into<String>, case: Value) {
+        self.add(key, fp.into(), || (what.into(), case));
+    }
+    pub fn merge(&mut self, o: Viols) {
+        for (fp, (k, w, c, n)) in o.0 {
+            match self.0.get_mut(&fp) {
+                Some(e) => {
+                    e.3 += n;
+                    if k < e.0 {
+                        e.0 = k;
+                        e.1 = w;
+                        e.2 = c;
+                    }
+                }
+                None => {
+                    self.0.insert(fp, (k, w, c, n));
+                }
+            }
+        }
+    }
+    pub fn is_empty(&self) -> bool {
+        self.0.is_empty()
+    }
+    /// Hand everything to the run context (serially, in fingerprint order).
+    pub fn emit(self, ctx: &mc_core::Ctx) {
+        for (fp, (_, w, c, n)) in self.0 {
+            ctx.violation(fp.clone(), w, c);
+            for _ in 1..n {
+                ctx.violation(fp.clone(), "", Value::Null);
+            }
+        }
+    }
+}
+
 fn main() {
     let ctx = mc_core::Ctx::from_args();
     match ctx.prop.as_str() {
-        p => mc_core::report::machinery_failure(&format!("mc-addr does not serve {p} yet")),
+        "C18" => c18::run(ctx),
+        "C19" => c19::run(ctx),
+        p => mc_core::report::machinery_failure(&format!("mc-addr does not serve {p}")),
     }
 }
